@@ -1162,8 +1162,83 @@ class Canon:
             return self._substitutable(e.value, stored_attrs, multi_def)
         return False
 
+    RAISING_PURE = {'eval', 'convert_to_xml_class_name', 'convert_to_xsd_class_name', 'cap_first', 'len', 'int', 'float'}
+
+    @classmethod
+    def _may_raise(cls, e) -> bool:
+        """evaluating e can raise: everything except constants, names and one attribute of `self` / `cls`"""
+        if isinstance(e, (ast.Constant, ast.Name)):
+            return False
+        if isinstance(e, ast.Attribute) and isinstance(e.value, ast.Name) and e.value.id in ('self', 'cls'):
+            return False
+        if isinstance(e, (ast.Tuple, ast.List)):
+            return any(cls._may_raise(x) for x in e.elts)
+        if isinstance(e, ast.Compare) and all(isinstance(o, (ast.Is, ast.IsNot)) for o in e.ops):
+            return cls._may_raise(e.left) or any(cls._may_raise(c) for c in e.comparators)
+        if isinstance(e, ast.Call) and isinstance(e.func, ast.Name) and e.func.id in ('isinstance', 'type', 'callable', 'hasattr', 'id') and not e.keywords:
+            return any(cls._may_raise(a) for a in e.args)
+        return True
+
+    @classmethod
+    def _transparent(cls, st) -> bool:
+        """a statement an exception of a pure expression may be moved across: it has no effect but binding a local name, and what it may raise
+        itself is of the same kind (a dereference of None), not one of the pure functions with exceptions of their own"""
+        if isinstance(st, ast.Pass) or isinstance(st, ast.Expr) and isinstance(st.value, ast.Constant):
+            return True
+        if isinstance(st, ast.Assign) and len(st.targets) == 1 and isinstance(st.targets[0], ast.Name):
+            for n in ast.walk(st.value):
+                if isinstance(n, ast.Call) and not (isinstance(n.func, ast.Attribute) and n.func.attr.startswith('get_') and not n.args and not n.keywords) and \
+                        not (isinstance(n.func, ast.Name) and n.func.id in ('isinstance', 'type', 'callable', 'hasattr', 'id')):
+                    return False
+                if isinstance(n, (ast.Subscript, ast.BinOp, ast.ListComp, ast.SetComp, ast.DictComp, ast.GeneratorExp, ast.Lambda, ast.Await, ast.Yield, ast.NamedExpr)):
+                    return False
+            return True
+        return False
+
+    @staticmethod
+    def _evaluated_first_in(stmt, name) -> bool:
+        """a use of `name` is evaluated whenever stmt is reached, in its header (not inside a nested block, the later operands of and / or, a
+        conditional expression, the element of a comprehension or a lambda)"""
+        if isinstance(stmt, (ast.Assign, ast.AugAssign, ast.AnnAssign, ast.Expr, ast.Return, ast.Raise, ast.Assert)):
+            roots = [stmt]
+        elif isinstance(stmt, (ast.If, ast.While)):
+            roots = [stmt.test]
+        elif isinstance(stmt, ast.For):
+            roots = [stmt.iter]
+        else:
+            return False
+        stack = list(roots)
+        while stack:
+            n = stack.pop()
+            if isinstance(n, ast.Name) and n.id == name and isinstance(n.ctx, ast.Load):
+                return True
+            if isinstance(n, ast.BoolOp):
+                stack.append(n.values[0])
+            elif isinstance(n, ast.IfExp):
+                stack.append(n.test)
+            elif isinstance(n, (ast.ListComp, ast.SetComp, ast.DictComp, ast.GeneratorExp)):
+                stack.append(n.generators[0].iter)
+            elif isinstance(n, ast.Lambda):
+                pass
+            else:
+                stack.extend(ast.iter_child_nodes(n))
+        return False
+
+    def _exception_point_kept(self, lst, i, x, value) -> bool:
+        """moving the evaluation of `value` from lst[i] to the uses of x keeps what is raised and when: value cannot raise, or the first use follows
+        in the same statement list, is evaluated unconditionally, and only transparent statements lie in between"""
+        if not self._may_raise(value):
+            return True
+        for j in range(i + 1, len(lst)):
+            if any(isinstance(n, ast.Name) and n.id == x and isinstance(n.ctx, ast.Load) for n in ast.walk(lst[j])):
+                return self._evaluated_first_in(lst[j], x)
+            if not self._transparent(lst[j]):
+                return False
+        return False
+
     def _propagate_aliases(self, fn) -> bool:
-        """`x = <substitutable expression>` with x bound exactly once in the function: every later use of x is that expression."""
+        """`x = <substitutable expression>` with x bound exactly once in the function: every later use of x is that expression.  The expression
+        is moved only when the point at which it may raise stays the same (`_exception_point_kept`)."""
         uses, defs = self._use_def_counts(fn)
         stored_attrs = {n.attr for n in ast.walk(fn) if isinstance(n, ast.Attribute) and isinstance(n.ctx, (ast.Store, ast.Del))}
         MUTATORS = {'add_child', 'remove', 'replace_child', 'append', 'insert', 'pop', 'extend', 'clear', 'duplicate', 'add_element', 'add_xml_element', '_add_duplication_parent'}
@@ -1198,7 +1273,7 @@ class Canon:
                                 return node
                         # uses before the definition (loops) would change meaning: require the definition to precede every use textually
                         first_use = min((n.lineno for n in ast.walk(fn) if isinstance(n, ast.Name) and n.id == x and isinstance(n.ctx, ast.Load) and hasattr(n, 'lineno')), default=None)
-                        if first_use is not None and first_use >= getattr(st, 'lineno', 0):
+                        if first_use is not None and first_use >= getattr(st, 'lineno', 0) and self._exception_point_kept(lst, i, x, value):
                             del lst[i]
                             if not lst:
                                 lst.append(ast.copy_location(ast.Pass(), st))
@@ -1228,6 +1303,12 @@ class Canon:
             i = 0
             while i < len(lst):
                 st = lst[i]
+                # `for x in iter(E)` -> `for x in E`
+                if isinstance(st, ast.For) and isinstance(st.iter, ast.Call) and isinstance(st.iter.func, ast.Name) and st.iter.func.id == 'iter' and len(st.iter.args) == 1 \
+                        and not st.iter.keywords:
+                    st.iter = st.iter.args[0]
+                    self.counts['W'] = self.counts.get('W', 0) + 1
+                    changed = True
                 # `if C: t = True else: t = False` -> `t = C` ; `if C: return True else: return False` -> `return C` (C a comparison / boolean test)
                 if isinstance(st, ast.If) and len(st.body) == 1 and len(st.orelse) == 1 and type(st.body[0]) is type(st.orelse[0]) and \
                         isinstance(st.body[0], (ast.Assign, ast.Return)) and self._boolean_valued(st.test):
@@ -1304,6 +1385,32 @@ class Canon:
                         lst[i + 1:i + 1] = rest
                         self.counts['C'] += 1
                         changed = True
+                # G: `x = E` immediately followed by `obj.f = x` (x bound once, .f stored once in the function): the field is the name of the object
+                # (not for a zero-argument accessor `o.get_y()`: the alias pass writes the accessor at the uses, which keeps the receiver's type visible)
+                if isinstance(st, ast.Assign) and len(st.targets) == 1 and isinstance(st.targets[0], ast.Name) and i + 1 < len(lst) and \
+                        isinstance(st.value, ast.Call) and not (isinstance(st.value.func, ast.Attribute) and st.value.func.attr.startswith('get_') and
+                                                                not st.value.args and not st.value.keywords):
+                    x = st.targets[0].id
+                    nxt = lst[i + 1]
+                    if defs.get(x, 0) == 1 and isinstance(nxt, ast.Assign) and len(nxt.targets) == 1 and isinstance(nxt.targets[0], ast.Attribute) and \
+                            isinstance(nxt.value, ast.Name) and nxt.value.id == x and isinstance(nxt.targets[0].value, ast.Name) and \
+                            sum(1 for n in ast.walk(fn) if isinstance(n, ast.Attribute) and n.attr == nxt.targets[0].attr and isinstance(n.ctx, (ast.Store, ast.Del))) == 1:
+                        field = nxt.targets[0]
+                        load = copy.deepcopy(field)
+                        load.ctx = ast.Load()
+
+                        class RG(ast.NodeTransformer):
+                            def visit_Name(self, node):
+                                if node.id == x and isinstance(node.ctx, ast.Load):
+                                    return ast.copy_location(copy.deepcopy(load), node)
+                                return node
+                        nxt.value = st.value
+                        del lst[i]
+                        for later in lst[i + 1:]:
+                            RG().visit(later)
+                        self.counts['G'] = self.counts.get('G', 0) + 1
+                        changed = True
+                        continue
                 # E: `y = RHS ... x = y` (y defined once, used once - by that copy - and x untouched in between) -> `x = RHS ...`
                 if isinstance(st, ast.Assign) and len(st.targets) == 1 and isinstance(st.targets[0], ast.Name):
                     y = st.targets[0].id
